@@ -435,6 +435,57 @@ func run(id string, sc scen) runner.Result {
 // is already finished but the manager has not yet been told (the usual
 // "defer cancel()" race); RPC 2 on the same connection then blocks in a receive
 // and is cancelled: it must be unblocked like any other.
+// lazyHandler: the handler reads the first message and then only waits for its context to end; the
+// client sends more messages (the next one stays undelivered inside the server's reader), then cancels.
+// "Once the cancellation or disconnect reaches the peer, the peer handler's stream context is cancelled."
+func lazyHandler(id string, soft bool, extra int) runner.Result {
+	mopts := drpcmanager.Options{SoftCancel: soft}
+	var hmu sync.Mutex
+	var hctx context.Context
+	handler := rig.HandlerFunc(func(stream drpc.Stream, rpc string) error {
+		var m []byte
+		if err := stream.MsgRecv(&m, payload.Enc{}); err != nil {
+			return err
+		}
+		hmu.Lock()
+		hctx = stream.Context()
+		hmu.Unlock()
+		<-stream.Context().Done()
+		return nil
+	})
+	rg := rig.New(rig.Config{Net: simnet.Opts{Cap: -1}, Client: mopts, Server: mopts}, handler)
+	defer rg.Teardown()
+	ctx, cancel := context.WithCancel(context.Background())
+	defer cancel()
+	st, err := rg.Conn.NewStream(ctx, "/lazy", payload.Enc{})
+	if err != nil {
+		return runner.Inconcl(id, "NewStream failed")
+	}
+	for i := 0; i < 1+extra; i++ {
+		m := payload.Make(1, 0, 0, uint32(i), 20)
+		if err := st.MsgSend(&m, payload.Enc{}); err != nil {
+			return runner.Inconcl(id, "setup send failed: "+err.Error())
+		}
+	}
+	census.Quiesce(rig.Watchdog)
+	cancel()
+	_, snap := census.Quiesce(rig.Watchdog)
+	desc := fmt.Sprintf("lazy handler soft=%v: the handler read 1 message and waits for its context; %d more message(s) sent and unread; the client cancels", soft, extra)
+	hmu.Lock()
+	hc := hctx
+	hmu.Unlock()
+	if hc == nil {
+		return runner.Inconcl(id, "the handler never started: "+desc)
+	}
+	if !rig.IsClosed(hc.Done()) {
+		key := fmt.Sprintf("cancel:peer-handler-context-not-cancelled-behind-unread-message soft=%v", soft)
+		return runner.Violation(id, key, desc+"\nthe peer handler's stream context is not cancelled at quiescence although the transport is flowing (the cancel or disconnect is queued behind the message the handler never reads)\n"+census.Dump(census.InDRPC(snap)))
+	}
+	res := runner.Hold(id, desc, true)
+	res.Events = int64(2 + extra)
+	return res
+}
+
 func finishRace(id string, soft bool, where string) runner.Result {
 	mopts := drpcmanager.Options{SoftCancel: soft}
 	handler := rig.HandlerFunc(func(stream drpc.Stream, rpc string) error {
@@ -620,6 +671,13 @@ func gen(tier string, seed uint64) []runner.Scenario {
 				id := fmt.Sprintf("finish-race/soft=%v/%s/%d", soft, where, rep)
 				out = append(out, runner.Scenario{ID: id, Run: func() runner.Result { return finishRace(id, soft, where) }})
 			}
+		}
+	}
+	for _, soft := range []bool{false, true} {
+		for extra := 0; extra <= 2; extra++ {
+			soft, extra := soft, extra
+			id := fmt.Sprintf("lazy-handler/soft=%v/unread=%d", soft, extra)
+			out = append(out, runner.Scenario{ID: id, Run: func() runner.Result { return lazyHandler(id, soft, extra) }})
 		}
 	}
 	for i, sc := range all {
